@@ -5,15 +5,7 @@ import (
 	"math/big"
 
 	"go.dedis.ch/kyber/v4"
-	"go.dedis.ch/kyber/v4/group/edwards25519"
-	"go.dedis.ch/kyber/v4/group/edwards25519vartime"
-	"go.dedis.ch/kyber/v4/group/p256"
 	"go.dedis.ch/kyber/v4/pairing"
-	"go.dedis.ch/kyber/v4/pairing/bls12381/circl"
-	"go.dedis.ch/kyber/v4/pairing/bls12381/gnark"
-	"go.dedis.ch/kyber/v4/pairing/bls12381/kilic"
-	"go.dedis.ch/kyber/v4/pairing/bn254"
-	"go.dedis.ch/kyber/v4/pairing/bn256"
 )
 
 // G is one group instance with its static capability table (what works on
@@ -23,16 +15,16 @@ type G struct {
 	Group   kyber.Group
 	VarTime bool // call AllowVarTime(true) on every fresh point
 	// capabilities
-	MulNil  bool // Mul(s,nil) multiplies the base
-	Base    bool
-	Pick    bool
-	Embed   bool
-	Hash    bool // hash-to-group through HashablePoint
-	Slow    bool // expensive scalar multiplication
-	Family  string
-	Order   *big.Int      // written out here, not read from kyber
-	Suite   pairing.Suite // pairing groups only
-	Kind    string        // "G1","G2","GT" or ""
+	MulNil bool // Mul(s,nil) multiplies the base
+	Base   bool
+	Pick   bool
+	Embed  bool
+	Hash   bool // hash-to-group through HashablePoint
+	Slow   bool // expensive scalar multiplication
+	Family string
+	Order  *big.Int      // written out here, not read from kyber
+	Suite  pairing.Suite // pairing groups only
+	Kind   string        // "G1","G2","GT" or ""
 }
 
 func bigs(s string) *big.Int {
@@ -90,25 +82,8 @@ type PS struct {
 	Suite pairing.Suite
 }
 
-func PairingSuites() []PS {
-	return []PS{
-		{"bn256", bn256.NewSuite()},
-		{"bn254", bn254.NewSuite()},
-		{"kilic", kilic.NewBLS12381Suite()},
-		{"circl", circl.NewSuite()},
-		{"gnark", gnark.NewSuite()},
-	}
-}
-
-func All() []*G {
-	out := []*G{
-		{Name: "ed25519", Group: edwards25519.NewBlakeSHA256Ed25519(), MulNil: true, Base: true, Pick: true, Embed: true, Family: "ed25519", Order: OrderEd25519},
-		{Name: "ed25519-vt", Group: edwards25519.NewBlakeSHA256Ed25519(), VarTime: true, MulNil: true, Base: true, Pick: true, Embed: true, Family: "ed25519", Order: OrderEd25519},
-		{Name: "ed25519vartime", Group: edwards25519vartime.NewBlakeSHA256Ed25519(false), MulNil: true, Base: true, Pick: true, Embed: true, Slow: true, Family: "ed25519", Order: OrderEd25519},
-		{Name: "p256", Group: p256.NewBlakeSHA256P256(), MulNil: true, Base: true, Pick: true, Embed: true, Family: "p256", Order: OrderP256},
-		{Name: "qr512", Group: p256.NewBlakeSHA256QR512(), MulNil: true, Base: true, Pick: true, Embed: true, Family: "qr512", Order: OrderQR512},
-	}
-	for _, ps := range PairingSuites() {
+func pairingGroups(out []*G, pss []PS) []*G {
+	for _, ps := range pss {
 		q := OrderBLS
 		switch ps.Name {
 		case "bn256":
